@@ -51,7 +51,18 @@ type event struct {
 	burst       bool // evFrame: the frame is sent twice back to back before dae reads either record
 }
 
-func (ev *event) malformed() bool { return ev.flavour == ipFragNI || ev.truncate > 0 }
+// malformed: no flow can be identified from the frame (a fragment that does not start a datagram, a truncated frame).
+// The family does not matter for the classification: the same flavours are initial / non-initial for IPv4 and IPv6.
+func (ev *event) malformed() bool {
+	if ev.truncate > 0 {
+		return true
+	}
+	if isFragFlavour(ev.flavour) {
+		_, initial := fragField(ev.flavour, true)
+		return !initial
+	}
+	return false
+}
 
 type scenario struct {
 	name         string
@@ -220,13 +231,35 @@ func buildScenario(progs []*ruleProgram, side int, v6, ext, l2, peer, short bool
 	}
 	// stateless variants: fragments and truncations of the TCP SYN and of the UDP datagram on the routed hook
 	add := func(ci int, kname string, flags uint8, flavour int, trunc int, tag string) {
-		sc.events = append(sc.events, event{name: hk + "." + sc.convs[ci].name + "." + kname + "." + tag, kind: evFrame, hook: hookRouted, conv: ci, flags: flags, flavour: flavour, truncate: trunc})
+		name := hk + "." + sc.convs[ci].name + "." + kname + "." + tag
+		if flavour == ipFragAtomic && trunc == 0 {
+			// a whole datagram: named like the plain frame (prefix instead of suffix) so that recorded findings about
+			// the flow's datagrams also match this spelling
+			name = tag + "." + hk + "." + sc.convs[ci].name + "." + kname
+		}
+		sc.events = append(sc.events, event{name: name, kind: evFrame, hook: hookRouted, conv: ci, flags: flags, flavour: flavour, truncate: trunc})
 	}
+	// fragments, each through both parsers: middle, first (offset 0, M=1: still starts the datagram and is routed like
+	// the whole packet), tails at byte offsets 256 and 1448/1480 (one byte of the offset field zero / both non-zero),
+	// the atomic fragment (IPv6)
 	add(T, "SYN", fSYN, ipFragNI, 0, "fragNI")
 	add(U, "DGRAM", 0, ipFragNI, 0, "fragNI")
+	add(T, "SYN", fSYN, ipFrag1, 0, "frag1st")
+	add(U, "DGRAM", 0, ipFrag1, 0, "frag1st")
+	add(T, "SYN", fSYN, ipFragT256, 0, "fragTail256")
+	add(U, "DGRAM", 0, ipFragT256, 0, "fragTail256")
+	add(U, "DGRAM", 0, ipFragTmtu, 0, "fragTailMtu")
+	add(U, "DGRAM", 0, ipFragAtomic, 0, "fragAtomic")
 	if rich {
-		add(T, "SYN", fSYN, ipFrag1, 0, "frag1st")
-		add(U, "DGRAM", 0, ipFrag1, 0, "frag1st")
+		add(T, "SYN", fSYN, ipFragTmtu, 0, "fragTailMtu")
+		add(T, "SYN", fSYN, ipFragAtomic, 0, "fragAtomic")
+		add(D, "DGRAM", 0, ipFrag1, 0, "frag1st")
+		add(D, "DGRAM", 0, ipFragT256, 0, "fragTail256")
+		if v6 {
+			// cut inside / right after the fragment header
+			add(U, "DGRAM", 0, ipFrag1, sc.ipOffset()+40+4, "frag1st.cutInFragHdr")
+			add(U, "DGRAM", 0, ipFrag1, sc.ipOffset()+40+8, "frag1st.cutAfterFragHdr")
+		}
 	}
 	for _, ci := range []int{T, U} {
 		fs := sc.frameSpecFor(&event{kind: evFrame, hook: hookRouted, conv: ci, flavour: flav})
@@ -244,6 +277,13 @@ func buildScenario(progs []*ruleProgram, side int, v6, ext, l2, peer, short bool
 		}
 	}
 	return sc
+}
+
+func (sc *scenario) ipOffset() int {
+	if sc.l2 {
+		return 14
+	}
+	return 0
 }
 
 func (sc *scenario) frameSpecFor(ev *event) *frameSpec {
